@@ -54,6 +54,7 @@ type Scenario struct {
 	twinSpecs         []map[string]string // further own instances of the same DAG, started with these variable values
 	core              bool                // within the scope of the EngineCore model (journal carries the marker event 38)
 	staleEv           bool                // retry command executed while the completion event of the failed run is still queued behind a busy parser worker
+	reassign          bool                // instances left behind by an interrupted watch round are given to another worker
 	lateExit          bool                // executor workers held at the end of workerDo across a retry of their task
 	cmdCrash          bool                // the worker dies after a retry command re-armed its target and before the command is cleared; restart
 	window            bool                // retry command executed between the failed run's last status write and its de-registration
@@ -453,6 +454,32 @@ func genScenario(rng *Rng, kind string) *Scenario {
 		if rng.Chance(1, 3) {
 			s.crashAt = []int{20 + rng.Intn(30)}
 		}
+	case "succfault":
+		// the write that records 'success' for a task with dependents fails: nothing downstream may start on the
+		// strength of a success that was never recorded
+		s.faultNth = 1 + rng.Intn(2)
+		s.faultMatch = ":success"
+		s.faultMode = "fail"
+		for k := range s.scripts {
+			l := s.scripts[k]
+			for a := range l {
+				l[a].outcome = 0
+			}
+		}
+	case "reassign":
+		// two or three own instances of one DAG become 'scheduled' together; the instantiation of the first fails in
+		// the store, which ends that watch round; the others then wait past the schedule timeout, the leader's
+		// left-behind sweep returns them to init and dispatch gives them to another worker; the first worker's next
+		// round must leave them alone
+		s.twinSpecs = []map[string]string{{"v": "2"}}
+		if rng.Chance(1, 2) {
+			s.twinSpecs = append(s.twinSpecs, map[string]string{"v": "1"})
+		}
+		s.faultNth = 2 // the first instance of the round is started, the second one's instantiation fails
+		s.faultMatch = []string{"BatchCreatTaskIns", "GetDag", "ListTaskInstance:ins="}[rng.Intn(2)]
+		s.faultMode = "fail"
+		s.reassign = true
+		s.retries, s.continues = 0, 0
 	case "cmdfault":
 		// the write that re-arms a targeted task (UpdateTaskIns) fails once while a retry / continue command is executed
 		s.retries = 1 + rng.Intn(2)
@@ -852,55 +879,6 @@ func runScenario(w *World, rng *Rng, s *Scenario, maxSteps int) *runResult {
 		if s.lateExit {
 			dirPhase = e.directedLateExit(dirPhase, kp)
 		}
-		if s.cmdCrash && dirPhase == 0 && !e.anyIns(hasCmd) && len(e.aliveTaskIns()) == 0 && len(e.liveGates()) == 0 {
-			if f := e.tasksWithStatus("failed"); len(f) > 0 {
-				dirPhase = 1
-				beat()
-				ids := f
-				e.spawn(6, "retry-cmdcrash", func() string {
-					if err := mod.GetCommander().RetryTask(ids); err != nil {
-						return "err"
-					}
-					return "ok"
-				})
-				e.settle()
-				e.drive(6)
-				par := e.par
-				e.spawn(2, "watchCmd", func() string {
-					if err := par.VerifWatchCmd(); err != nil {
-						return "err"
-					}
-					return "ok"
-				})
-				e.settle()
-				// the command watcher runs until its re-arming write has been applied; then the worker dies
-				for i := 0; i < 20; i++ {
-					stop := false
-					for _, g := range e.liveGates() {
-						if g.origin == 2 && g.kind == "store" && strings.HasPrefix(g.desc, "PatchDagIns:") {
-							stop = true
-						}
-					}
-					if stop || !e.step(func(g *gate) bool { return g.origin == 2 && g.kind == "store" }) {
-						break
-					}
-				}
-				e.crash()
-				must(kp.VerifHeartBeat())
-				e.startIncarnation(s.execWorkers, s.parserWorkers, 30*time.Second)
-				e.settle()
-				e.drive(7)
-				par = e.par
-				e.spawn(2, "watchCmd", func() string {
-					if err := par.VerifWatchCmd(); err != nil {
-						return "err"
-					}
-					return "ok"
-				})
-				e.settle()
-				e.drive(2)
-			}
-		}
 		if s.dupPush && s.retries > 0 && !closed && !e.anyIns(hasCmd) {
 			aboutToRun := false
 			for _, g := range e.liveGates() {
@@ -1003,6 +981,37 @@ func runScenario(w *World, rng *Rng, s *Scenario, maxSteps int) *runResult {
 		}
 		// decide what the environment does next
 		switch {
+		case s.reassign && dirPhase == 0 && e.anyIns(func(d bsonD) bool { return docStr(d, "status") == "scheduled" }) &&
+			e.anyIns(func(d bsonD) bool { return docStr(d, "status") != "scheduled" && docStr(d, "status") != "init" }):
+			// an interrupted watch round left instances 'scheduled' while an earlier one was started: they are left
+			// behind past the schedule timeout, swept by the leader and dispatched to worker-2 (the only worker with a
+			// fresh heartbeat at that moment); then worker-1 comes back and runs its next round
+			dirPhase = 1
+			if _, ok := w.Keepers["worker-2"]; !ok {
+				w.AddKeeper("worker-2")
+			}
+			w.Srv.Age(40 * time.Second)
+			e.log(L(I(22), I(40)), "T age 40s")
+			must(w.Keepers["worker-2"].VerifHeartBeat())
+			e.spawn(4, "watchdog-leftbehind", func() string {
+				if err := wd.VerifLeftBehindRound(); err != nil {
+					return "err"
+				}
+				return "ok"
+			})
+			e.settle()
+			e.drive(4)
+			mod.SetKeeper(w.Keepers["worker-2"])
+			must(mod.NewDefDispatcher().Do())
+			mod.SetKeeper(kp)
+			must(kp.VerifHeartBeat())
+			par := e.par
+			e.spawn(1, "watchScheduled", func() string {
+				if err := par.VerifWatchScheduled(); err != nil {
+					return "err"
+				}
+				return "ok"
+			})
 		case e.anyIns(hasCmd):
 			par := e.par
 			e.spawn(2, "watchCmd", func() string {
